@@ -131,17 +131,14 @@ impl Kind {
         }
     }
     /// switches tried when attributing a stage A mismatch
-    /// Deviation switches tried when attributing a mismatch. Switches 0, 1, 5, 6, 8, 10 (and layout switches 0, 1, kern
+    /// Deviation switches tried when attributing a mismatch. Switches 0-10 (and layout switches 0, 1, kern
     /// switches 0-2) describe defects that were repaired in /repo (KNOWN_FINDINGS.txt `fixed:` lines); they are no
     /// longer candidates, so a return of that behaviour is reported as a plain mismatch.
     fn cands(&self) -> &'static [usize] {
         match self {
-            Kind::Single | Kind::Pair => &[],
-            Kind::Cursive => &[11],
-            Kind::MarkBase | Kind::MarkLig => &[2, 11],
-            Kind::MarkMark => &[3, 4, 11],
-            Kind::Context => &[7, 9],
-            Kind::Combo | Kind::Overflow => &[2, 3, 4],
+            Kind::Single | Kind::Pair | Kind::Context | Kind::Combo | Kind::Overflow => &[],
+            // 11 = anchor format 3 variation deltas ignored: the only GPOS deviation still recorded as a known finding
+            Kind::Cursive | Kind::MarkBase | Kind::MarkLig | Kind::MarkMark => &[11],
         }
     }
 }
